@@ -1,6 +1,7 @@
 import Glas.Props.C02
 import Glas.Props.C02Marks
 import Glas.Props.C02Stuck
+import Glas.Props.C02Depth
 #print axioms Glas.Props.C02.glas_checked
 #print axioms Glas.Props.C02.check_sound_safe
 #print axioms Glas.Props.C02.check_sound_terminates
@@ -18,3 +19,6 @@ import Glas.Props.C02Stuck
 #print axioms Glas.Props.C02La.la_sound
 #print axioms Glas.Props.C02La.C02_never_stuck
 #print axioms Glas.Props.C02Stuck.C02_always_ok
+#print axioms Glas.Props.C02Depth.depth_linear
+#print axioms Glas.Props.C02Depth.glas_rankBound
+#print axioms Glas.Props.C02Depth.C02_depth_linear
